@@ -346,3 +346,17 @@ func (g *Gen) injects(peer string, n int, from, to int64, tag string) []BrokerIn
 }
 
 func newRng(seed uint64) *simrt.Rng { return simrt.NewRng(seed) }
+
+// visibleID picks a predefined id that is defined for the client (sorted, so the choice is stable).
+func visibleID(g *Gen, m map[string]map[uint16]string, cid string) uint16 {
+	var ids []uint16
+	for id := uint16(1); id <= 64; id++ {
+		if _, ok := refPredefName(m, cid, id); ok {
+			ids = append(ids, id)
+		}
+	}
+	if len(ids) == 0 {
+		return 2
+	}
+	return ids[g.Intn(len(ids))]
+}
